@@ -157,7 +157,15 @@ async fn one_case(acc: &mut Acc, case: &Value) {
         }
         for (sql, kind) in queries {
             acc.evaluations += 1;
-            let r = run_sql(&ctx, &sql).await;
+            let mut r = run_sql(&ctx, &sql).await;
+            // documented: file_row_index() fails when it could not be pushed into the scan; then the
+            // rows are still checked, without the row index
+            let mut no_ri = false;
+            if matches!(&r, Err(e) if e.contains("file_row_index() is source dependent")) && kind != "rowidx" {
+                acc.bump("row_index_not_pushed_into_scan", 1);
+                no_ri = true;
+                r = run_sql(&ctx, &sql.replace("file_row_index() AS ri", "CAST(NULL AS BIGINT) AS ri")).await;
+            }
             let (got, m) = match r {
                 Ok(x) => x,
                 Err(e) => {
@@ -169,6 +177,8 @@ async fn one_case(acc: &mut Acc, case: &Value) {
                     continue;
                 }
             };
+            let expected_owned: Vec<Vec<Value>> = if no_ri { expected.iter().map(|r| { let mut r = r.clone(); r[0] = Value::Null; r }).collect() } else { expected.clone() };
+            let expected = &expected_owned;
             for name in METRICS { acc.bump(&format!("metric_{name}/{kind}"), metric(&m, name)); }
             if m.contains("reverse_row_groups=true") { acc.bump("plans_with_reverse_row_groups", 1); }
             if m.contains("sort_order_for_reorder") { acc.bump("plans_with_sort_order_for_reorder", 1); }
@@ -176,7 +186,7 @@ async fn one_case(acc: &mut Acc, case: &Value) {
             if m.contains("DynamicFilter") { acc.bump("plans_with_dynamic_filter", 1); }
             if std::env::var("VERIF_DEBUG").is_ok() { eprintln!("{sql}\n{m}"); }
             let problem: Option<String> = match kind {
-                "full" => { let (mi, ex) = bag_diff(&expected, &got); if mi.is_empty() && ex.is_empty() { None } else { Some(format!("missing {mi:?} unexpected {ex:?}")) } }
+                "full" => { let (mi, ex) = bag_diff(expected, &got); if mi.is_empty() && ex.is_empty() { None } else { Some(format!("missing {mi:?} unexpected {ex:?}")) } }
                 "proj" => {
                     let e: Vec<Vec<Value>> = expected.iter().map(|r| vec![r[5].clone(), r[7].clone()]).collect();
                     let (mi, ex) = bag_diff(&e, &got); if mi.is_empty() && ex.is_empty() { None } else { Some(format!("missing {mi:?} unexpected {ex:?}")) } }
@@ -184,7 +194,7 @@ async fn one_case(acc: &mut Acc, case: &Value) {
                     let e: Vec<Vec<Value>> = expected.iter().filter(|r| r[0].as_i64().unwrap() >= j).cloned().collect();
                     let (mi, ex) = bag_diff(&e, &got); if mi.is_empty() && ex.is_empty() { None } else { Some(format!("missing {mi:?} unexpected {ex:?}")) } }
                 "limit" => {
-                    let (_, ex) = bag_diff(&expected, &got);
+                    let (_, ex) = bag_diff(expected, &got);
                     if got.len() != k.min(n_exp) { Some(format!("{} rows, expected {}", got.len(), k.min(n_exp))) } else if !ex.is_empty() { Some(format!("rows not in Filter(all rows): {ex:?}")) } else { None } }
                 "sorted" => {
                     // NULLS FIRST for DESC / NULLS LAST for ASC = the reverse / natural declared order
@@ -192,14 +202,14 @@ async fn one_case(acc: &mut Acc, case: &Value) {
                     sort_keys(&mut keys, false);
                     if desc { keys.reverse(); }
                     let got_keys: Vec<Option<i64>> = got.iter().map(|r| r[1].as_i64()).collect();
-                    let (mi, ex) = bag_diff(&expected, &got);
+                    let (mi, ex) = bag_diff(expected, &got);
                     if got_keys != keys { Some(format!("key sequence {got_keys:?}, expected {keys:?}")) } else if !mi.is_empty() || !ex.is_empty() { Some(format!("missing {mi:?} unexpected {ex:?}")) } else { None } }
                 _ => {
                     let mut keys: Vec<Option<i64>> = expected.iter().map(|r| r[1].as_i64()).collect();
                     sort_keys(&mut keys, desc);
                     keys.truncate(k);
                     let got_keys: Vec<Option<i64>> = got.iter().map(|r| r[1].as_i64()).collect();
-                    let (_, ex) = bag_diff(&expected, &got);
+                    let (_, ex) = bag_diff(expected, &got);
                     if got_keys != keys { Some(format!("key sequence {got_keys:?}, expected {keys:?}")) } else if !ex.is_empty() { Some(format!("rows not in Filter(all rows): {ex:?}")) } else { None } }
             };
             if n_exp > 0 && n_exp < nrows {
